@@ -19,6 +19,8 @@ def gen(run):
             # constant (decimal and hex), arithmetic, expression macro
             cases.append(mk_case([("op", m, ("num", v))], "const", N=N, v=v, kind="fixed"))
             cases.append(mk_case([("op", m, G.climb([("num", v - 1), "+", ("num", 1)]))], "arith", N=N, v=v, kind="fixed"))
+            if v % 2 == 0:
+                cases.append(mk_case([("op", m, G.climb([("num", v // 2), "*", ("num", 2)]))], "arith-mul", N=N, v=v, kind="fixed"))
             cases.append(mk_case([("defe", "k", [], ("num", v)), ("op", m, ("macro", "k", []))], "emacro", N=N, v=v, kind="fixed"))
             # macro argument
             cases.append(mk_case([("defi", "m", ["x"], [("op", m, ("var", "x"))]), ("macro", "m", [("num", v)])], "macro-arg", N=N, v=v, kind="fixed"))
@@ -41,6 +43,10 @@ def gen(run):
             cases.append(mk_case([("op", m, ("lbl", "l")), ("push", ("+", ("lbl", "l"), ("num", 300)))] + filler(max(pad2, 0)) + [("label", "l"), ("op", "jumpdest", None)],
                                  "moved", N=N, v=None, kind="fixed"))
     # %push boundaries
+    for a, b in ((2 ** 128, 2 ** 128), (2 ** 255, 2), (2 ** 200, 2 ** 100), (2 ** 127, 2 ** 128)):
+        cases.append(mk_case([("push", G.climb([("num", a), "*", ("num", b)]))], "unsized-mul", N=32, v=a * b, kind="unsized"))
+        cases.append(mk_case([("label", "z"), ("op", "jumpdest", None), ("label", "o"), ("push", G.climb([("paren", G.climb([("lbl", "o"), "-", ("lbl", "z")])), "*", ("num", a), "*", ("num", b)]))],
+                             "unsized-mul-label", N=32, v=a * b, kind="unsized"))
     for v in (2 ** 256 - 1, 2 ** 256, 2 ** 256 + 5, -1, -2 ** 255):
         e = ("num", v) if v >= 0 else G.climb([("num", 0), "-", ("num", -v)])
         cases.append(mk_case([("push", e)], "unsized", N=32, v=v, kind="unsized"))
